@@ -280,6 +280,23 @@ class Extractor {
                 o.boolean("lambda", M->getParent()->isLambda());
             }
             if (isa<CXXConstructorDecl>(F)) o.boolean("ctor", true);
+            if (auto *CC = dyn_cast<CXXConstructorDecl>(F)) {
+                if (CC->isCopyConstructor()) o.str("special", "copy-ctor");
+                else if (CC->isMoveConstructor()) o.str("special", "move-ctor");
+            }
+            if (auto *MM = dyn_cast<CXXMethodDecl>(F)) {
+                if (MM->isCopyAssignmentOperator()) o.str("special", "copy-assign");
+                else if (MM->isMoveAssignmentOperator()) o.str("special", "move-assign");
+                if (MM->isDefaulted() || MM->isDeleted()) o.boolean("defaulted", true);
+            }
+            if (auto *FPT = F->getType()->getAs<FunctionProtoType>()) {
+                // a non-throwing exception specification written by the author (or implied for a destructor)
+                if (!isUnresolvedExceptionSpec(FPT->getExceptionSpecType()) && FPT->isNothrow())
+                    o.boolean("nothrow", true);
+                if (FPT->getExceptionSpecType() == EST_BasicNoexcept || FPT->getExceptionSpecType() == EST_NoexceptTrue ||
+                    FPT->getExceptionSpecType() == EST_DynamicNone)
+                    o.boolean("nothrow_written", true);
+            }
             if (F->isOverloadedOperator()) o.str("op", getOperatorSpelling(F->getOverloadedOperator()));
             // definition id (the decl that carries the body, if any)
             const FunctionDecl *Def = nullptr;
@@ -765,6 +782,22 @@ class Extractor {
         o.boolean("usercopyassign", RD->hasUserDeclaredCopyAssignment());
         o.boolean("usermovector", RD->hasUserDeclaredMoveConstructor());
         o.boolean("usermoveassign", RD->hasUserDeclaredMoveAssignment());
+        {
+            // special members with a body written by the author (not `= default` / `= delete` on the first declaration)
+            std::vector<std::string> provided;
+            for (auto *M : RD->methods()) {
+                if (!M->isUserProvided()) continue;
+                std::string kind;
+                if (isa<CXXDestructorDecl>(M)) kind = "dtor";
+                else if (auto *C = dyn_cast<CXXConstructorDecl>(M)) {
+                    if (C->isCopyConstructor()) kind = "copy-ctor";
+                    else if (C->isMoveConstructor()) kind = "move-ctor";
+                } else if (M->isCopyAssignmentOperator()) kind = "copy-assign";
+                else if (M->isMoveAssignmentOperator()) kind = "move-assign";
+                if (!kind.empty()) provided.push_back(jstr(kind));
+            }
+            o.raw("provided", jarr(provided));
+        }
         recordJson.push_back(o.done());
     }
 
